@@ -116,7 +116,7 @@ func FieldFuncCall(field string) Match {
 }
 
 // Or combines matchers.
-func Or(ms ...Match) Match {
+func AnyOf(ms ...Match) Match {
 	return func(e *Event) bool {
 		for _, m := range ms {
 			if m(e) {
